@@ -314,6 +314,81 @@ def fn_live(items):
     return {'n': n, 'nt': nt, 'viol': viol}
 
 
+def _tqueries(st, N):
+    m = lib.torch_mods()
+    G = ref.all_g(N)
+    Gs = np.concatenate([G, G])
+    Ps = np.concatenate([np.zeros(len(G), dtype=np.int64), np.full(len(G), 2)])
+    out = {}
+    out['expect(list)'] = lib.t2n(st.expect(lib.tPL(Gs, Ps))).tolist()
+    for sub in sorted(dom.subsets(N), key=lambda x: (len(x), x)):
+        out['entropy(%s)' % (sub,)] = float(st.entropy(list(sub)))
+    mp = st.to_map()
+    out['to_map'] = (lib.t2n(mp.gs).tolist(), (lib.t2n(mp.ps) % 4).tolist())
+    dm = st.density_matrix
+    out['density_matrix'] = sorted((tuple(g), int(p) % 4, complex(np.round(c, 6))) for g, p, c in zip(lib.t2n(dm.gs).tolist(), lib.t2n(dm.ps).tolist(), dm.cs.detach().numpy().tolist()))
+    out['repr'] = repr(st)
+    out['tokenize'] = lib.t2n(st.tokenize()).tolist()
+    if int(st.r) == 0:
+        out['get_prob'] = [round(float(st.get_prob(lib.tT(list(b)))), 6) for b in itertools.product((0, 1), repeat=N)]
+    return out
+
+
+def fn_live_torch(items):
+    """item = [N, idx]: torchclifford: query round, second query round (must equal the first: queries leave no trace),
+    then one in-place operation (global / masked rotate_by and transform_by) and a third query round on the SAME
+    object, compared with a fresh object built from its tensors; and the tensors after the two query rounds must be
+    the original ones."""
+    m = lib.torch_mods()
+    torch = m['torch']
+    n = nt = 0
+    viol = []
+    for N, idx in items:
+        gs0, ps0, r0 = stab.tableaux(N)[idx]
+        ops = []
+        for k, (g, p) in enumerate(dom.hermitian_paulis(N, include_identity=False)[idx % 3::3]):
+            ops.append(('rotate_by', (lambda g=g, p=p: (lambda s_: s_.rotate_by(lib.tP(g, p))))()))
+        if N >= 2:
+            for q in range(N):
+                mb = np.zeros(N, dtype=bool)
+                mb[q] = True
+                for g, p in dom.hermitian_paulis(1, include_identity=False)[::2]:
+                    ops.append(('rotate_by-mask', (lambda g=g, p=p, mb=mb: (lambda s_: s_.rotate_by(lib.tP(g, p), mask=mb.copy())))()))
+                t1, s1 = dom.valid_maps(1)[(7 * idx + 5 * q) % 24]
+                ops.append(('transform_by-mask', (lambda t1=t1, s1=s1, mb=mb: (lambda s_: s_.transform_by(lib.tCM(t1, s1), mask=torch.tensor(mb.copy()))))()))
+        tN, sN = dom.valid_maps(N)[(idx * 131) % len(dom.valid_maps(N))]
+        ops.append(('transform_by', lambda s_: s_.transform_by(lib.tCM(tN, sN))))
+        for opname, op in ops:
+            st = lib.tST(gs0, ps0, r0)
+            try:
+                q0 = _tqueries(st, N)
+                q0b = _tqueries(st, N)
+            except Exception as e:
+                viol.append(V('C07/live/torch/query-raises-%s' % type(e).__name__, [N, idx], 'torch queries raised %s: %s' % (type(e).__name__, e)))
+                break
+            n += 2 * len(q0)
+            if q0 != q0b:
+                bad = [k for k in q0 if q0[k] != q0b[k]][0]
+                viol.append(V('C07/live/torch/second-query-differs', [N, idx], 'torch: the second round of queries on %s differs from the first (%s)' % (stab.describe(gs0, ps0, r0), bad)))
+                break
+            if not (np.array_equal(lib.t2n(st.gs), gs0) and np.array_equal(lib.t2n(st.ps) % 4, np.asarray(ps0) % 4) and int(st.r) == r0):
+                viol.append(V('C07/live/torch/queries-changed-state', [N, idx], 'torch: the query rounds changed the state %s' % stab.describe(gs0, ps0, r0)))
+                break
+            try:
+                op(st)
+            except Exception:
+                continue
+            fresh = lib.tST(lib.t2n(st.gs), lib.t2n(st.ps), int(st.r))
+            q1, q2 = _tqueries(st, N), _tqueries(fresh, N)
+            n += len(q1)
+            nt += 1
+            for k in q2:
+                if q1[k] != q2[k]:
+                    viol.append(V('C07/live/torch/%s/stale-after-%s' % (k.split('(')[0], opname), [N, idx], 'torch: %s after %s on a live state that had been queried before differs from the same query on a fresh state with identical tensors' % (k, opname)))
+                    break
+    return {'n': n, 'nt': nt, 'viol': viol}
+
+
 def fn_n3(items):
     """item = [li, L]: N=3 states built from the li-th ordered commuting list of length L with a
     sign pattern; expectation of the complete signed list and of imaginary-phase Paulis."""
@@ -456,6 +531,9 @@ def legs(tier):
     out.append(Leg('live_histories', fn_live, litems, chunk=2,
                    bound='query round -> one in-place operation (each of the %d C05 menu operations, every coin branch) -> query round on the same live object vs a fresh object built from its arrays; N=1 every 3rd tableau, N=2 %s' % (
                        msz, 'one tableau per density matrix' if tier != 'quick' else 'every 3rd density matrix')))
+    treps = stab.representatives(2, 0)
+    out.append(Leg('live_histories_torch', fn_live_torch, [[1, i] for i in range(0, 48, 5)] + [[2, i] for i in (treps[::4] if tier == 'quick' else treps)], chunk=1,
+                   bound='torchclifford: query round x2 -> in-place global / masked rotate_by / transform_by -> query round on one live state vs a fresh state (N=1 every 5th tableau, N=2 %s)' % ('every 4th density matrix' if tier == 'quick' else 'one tableau per density matrix')))
     nb3 = 402 if tier == 'quick' else 4002
     out.append(Leg('expect_N3_tableaux', fn_n3_tab, [[nb3, i] for i in range(nb3)], chunk=8, exhaustive=False, supplementary=True,
                    bound='%d N=3 tableaux (BFS from six start states of every rank, by concrete tableau): complete signed list, imaginary-phase Paulis; pure ones: all bit strings and overlaps with every 29th tableau of the set' % nb3))
